@@ -420,6 +420,9 @@ def Schema.wf (s : Schema) : Bool :=
   s.tlvs.all (fun f => f.ty.wf && f.typ < 2 ^ 64 && (f.kind == .option || f.typ % 2 == 0)) &&
   strictInc (s.tlvs.map (·.typ))
 
+/-- every type of the schema is HighZeroBytesDropped-free -/
+def Schema.plain (s : Schema) : Bool := s.fixed.all (·.plain) && s.tlvs.all (·.ty.plain)
+
 def validFixed : List FieldTy → List Val → Bool
   | [], [] => true
   | t :: ts, v :: vs => t.valid v && validFixed ts vs
